@@ -9,9 +9,13 @@ package main
 import (
 	"encoding/hex"
 	"encoding/json"
+	"bytes"
+	"context"
 	"flag"
 	"fmt"
 	"math"
+	"net/http"
+	"net/http/httptest"
 	"os"
 	"path"
 	"strings"
@@ -32,6 +36,7 @@ import (
 	"pdverif/internal/rng"
 	"pdverif/internal/srv14"
 
+	"github.com/tikv/pd/server/api"
 	"github.com/tikv/pd/server/cluster"
 	"github.com/tikv/pd/server/config"
 )
@@ -1605,6 +1610,215 @@ func genOldRecord(r *rng.R) caseJ {
 	return c
 }
 
+// ---------- the HTTP layer above the rule manager (real api.NewHandler router on the real server) ----------
+// A group gets a bundle / a rule through the API; then a second request for the same group or rule changes what
+// sits at the same position - refused (then everything served must be as before) or accepted (then a manager
+// started on the storage must serve what the leader serves). Judged on the Go side (GetAllRules as JSON of the
+// leader's manager before / after, and of a second manager on the same storage).
+type apiStep struct {
+	Method string      `json:"method"`
+	Path   string      `json:"path"`
+	Body   interface{} `json:"body"`
+	Want   string      `json:"want"` // "ok" | "refused"
+}
+
+func apiClass(R *res.Result, r *rng.R, tag string) { runAPI(R, genAPI(r), tag) }
+
+func runAPI(R *res.Result, plan []apiStep, tag string) {
+	w := newWorldServer()
+	defer w.stopRC()
+	m, err := w.restartVia(opJ{Kind: "restart", Via: "rc", MaxReplicas: 3})
+	if err != nil {
+		panic(err)
+	}
+	h, _, err := api.NewHandler(context.Background(), theServer.S)
+	if err != nil {
+		panic(err)
+	}
+	var steps []apiStep
+	send := func(st apiStep) int {
+		b, _ := json.Marshal(st.Body)
+		req := httptest.NewRequest(st.Method, "/pd/api/v1"+st.Path, bytes.NewReader(b))
+		rec := httptest.NewRecorder()
+		h.ServeHTTP(rec, req)
+		steps = append(steps, st)
+		return rec.Code
+	}
+	served := func(x *placement.RuleManager) string {
+		b, _ := json.Marshal(struct {
+			Rules  []*placement.Rule
+			Groups []*placement.RuleGroup
+		}{x.GetAllRules(), x.GetRuleGroups()})
+		return string(b)
+	}
+	check := func(st apiStep, before string) {
+		code := send(st)
+		after := served(m)
+		switch {
+		case st.Want == "refused" && code == http.StatusOK:
+			R.Count("api:invalid-request-accepted") // not judged here
+		case st.Want == "refused":
+			if after != before {
+				R.Violate("C13:api:refused-request-changed-what-is-served", fmt.Sprintf("%s: %s %s answered %d, served before %s, after %s", tag, st.Method, st.Path, code, before, after), map[string]interface{}{"stream": "api", "steps": steps})
+			}
+			R.Count("api:refused")
+		case code != http.StatusOK:
+			R.Count(fmt.Sprintf("api:valid-request-refused-%d", code))
+		default:
+			m2 := placement.NewRuleManager(w.st, theServerRC)
+			if err := m2.Initialize(3, nil); err != nil {
+				R.Violate("C13:api:second-manager-cannot-start-after-accepted-request", fmt.Sprintf("%s: %v", tag, err), map[string]interface{}{"stream": "api", "steps": steps})
+			} else if re := served(m2); re != after {
+				R.Violate("C13:api:restart-loads-different-rules-after-accepted-request", fmt.Sprintf("%s: %s %s answered 200, served %s, a manager started on the storage serves %s", tag, st.Method, st.Path, after, re), map[string]interface{}{"stream": "api", "steps": steps})
+			}
+			R.Count("api:accepted")
+		}
+	}
+	for _, st := range plan {
+		check(st, served(m))
+	}
+	R.Count("stream:api")
+}
+
+func genAPI(r *rng.R) []apiStep {
+	var plan []apiStep
+	check := func(st apiStep, _ string) { plan = append(plan, st) }
+	served := func(interface{}) string { return "" }
+	var m interface{}
+	type jr = map[string]interface{}
+	keys := []string{"", hex.EncodeToString(memEncode(rawKeyPool["20"])), hex.EncodeToString(memEncode(rawKeyPool["30"])), hex.EncodeToString(memEncode(rawKeyPool["50"]))}
+	ver := 0
+	mkRule := func(g, id string, count int, role string, si, ei int, cons []jr) jr {
+		ver++
+		x := jr{"group_id": g, "id": id, "role": role, "count": count, "start_key": keys[si], "end_key": "", "location_labels": []string{fmt.Sprintf("v%d", ver)}}
+		if ei > si {
+			x["end_key"] = keys[ei]
+		}
+		if cons != nil {
+			x["label_constraints"] = cons
+		}
+		return x
+	}
+	zoneIn := func(op, v string) []jr { return []jr{{"key": "zone", "op": op, "values": []string{v}}} }
+	for round := 0; round < 3; round++ {
+		g := []string{"a", "b", "tiflash"}[round]
+		if r.Pct(50) { // a bundle, then bundles for the same group
+			n := 1 + r.Intn(3)
+			mk := func(breakAt int, bump int) jr {
+				var rules []jr
+				for i := 0; i < n; i++ {
+					cnt := 1 + (i+bump)%3
+					role := []string{"voter", "follower", "learner"}[(i+bump)%3]
+					if i == 0 {
+						role = "voter"
+					}
+					if i == breakAt {
+						cnt = 0
+					}
+					rules = append(rules, mkRule(g, fmt.Sprintf("r%d", i), cnt, role, i%3, 0, nil))
+				}
+				return jr{"group_id": g, "group_index": 1 + round + bump, "group_override": bump%2 == 1, "rules": rules}
+			}
+			check(apiStep{"POST", "/config/placement-rule/" + g, mk(-1, 0), "ok"}, served(m))
+			check(apiStep{"POST", "/config/placement-rule/" + g, mk(r.Intn(n), 1), "refused"}, served(m))
+			check(apiStep{"POST", "/config/placement-rule/" + g, mk(-1, 2), "ok"}, served(m))
+			if r.Pct(50) {
+				body := mk(-1, 3)
+				delete(body, "group_index") // a partial body
+				check(apiStep{"POST", "/config/placement-rule/" + g, body, "ok"}, served(m))
+			}
+		} else { // a rule, then updates of that rule
+			check(apiStep{"POST", "/config/rule", mkRule(g, "r1", 2, "voter", 1, 3, zoneIn("in", "z2")), "ok"}, served(m))
+			check(apiStep{"POST", "/config/rule", mkRule(g, "r1", 0, "voter", 1, 3, zoneIn("in", "z3")), "refused"}, served(m))
+			check(apiStep{"POST", "/config/rule", mkRule(g, "r1", 2, "voter", 1, 3, zoneIn("in", "z9")), "refused"}, served(m)) // matches no store
+			check(apiStep{"POST", "/config/rule", mkRule(g, "r1", 2, "voter", 1, 3, zoneIn("notIn", "z5")), "ok"}, served(m))
+			if r.Pct(50) {
+				check(apiStep{"POST", "/config/rule", jr{"group_id": g, "id": "r1", "role": "voter", "count": 1 + r.Intn(3), "start_key": keys[1], "end_key": keys[3]}, "ok"}, served(m))
+			}
+		}
+	}
+	return plan
+}
+
+// ---------- a storage failure while Initialize repairs the storage ----------
+// Records under foreign keys (another version's key format), garbage and duplicates are in the storage; the
+// k-th write of loadRules' repairs fails. Whatever Initialize answers: once an Initialize has SUCCEEDED (this
+// one, or the retry the member makes after a failure), the storage holds exactly the served rules, each under
+// its own key (C13_restart_repairs_storage) - a record that survives a start it was not served from comes
+// back after the rule is deleted. Judged on the Go side (keys below rules/ against the served rules).
+func initFault(R *res.Result, r *rng.R, tag string) {
+	w := newWorld()
+	g := &gen{r: r, known: map[[2]string]ruleJ{{"pd", "default"}: {G: "pd", I: "default", Role: "voter", Count: 3}}}
+	var hist []string
+	m := placement.NewRuleManager(w.st, nil)
+	if err := m.Initialize(3, nil); err != nil {
+		panic(err)
+	}
+	for k := 0; k < 2+r.Intn(3); k++ {
+		ru := g.rule(g.someGroup())
+		_ = m.SetRule(ru.pd())
+		hist = append(hist, fmt.Sprintf("SetRule %s/%s", ru.G, ru.I))
+	}
+	for k := 0; k < 1+r.Intn(3); k++ { // another member's leftovers
+		ru := g.rule(g.someGroup())
+		key := storeKey(ru.G, ru.I)
+		switch r.Pick(60, 20, 20) {
+		case 0:
+			key = storeKey("old", fmt.Sprintf("%s-%s-%d", ru.G, ru.I, k)) // a foreign key: the rule is served and moved
+		case 1:
+			key = storeKey(ru.G, ru.I) // its own key
+		}
+		b, _ := json.Marshal(ru.pd())
+		v := string(b)
+		if r.Pct(15) {
+			v = "{not json"
+		}
+		_ = w.kv.Inner.Save(key, v)
+		hist = append(hist, fmt.Sprintf("foreign write %s = %s", key, v))
+	}
+	consistent := func(x *placement.RuleManager) string {
+		want := map[string]bool{}
+		for _, ru := range x.GetAllRules() {
+			want[storeKey(ru.GroupID, ru.ID)] = true
+		}
+		ks, _ := w.kv.Dump()
+		for _, k := range ks {
+			if !strings.HasPrefix(k, "rules/") {
+				continue
+			}
+			if !want[k] {
+				return "the storage holds " + k + ", no served rule has that key"
+			}
+			delete(want, k)
+		}
+		for k := range want {
+			return "the served rule " + k + " is not in the storage"
+		}
+		return ""
+	}
+	at := 1 + r.Pick(50, 30, 20)
+	w.kv.Plan(at, kvx13.FailBefore)
+	m1 := placement.NewRuleManager(w.st, nil)
+	err := m1.Initialize(3, nil)
+	n := len(w.kv.Take())
+	hist = append(hist, fmt.Sprintf("Initialize with write %d failing (%d writes issued): %v", at, n, err))
+	if err != nil { // the member retries
+		m1 = placement.NewRuleManager(w.st, nil)
+		if err2 := m1.Initialize(3, nil); err2 != nil {
+			R.Count("initfault:retry-fails")
+			return
+		}
+		hist = append(hist, "Initialize again: ok")
+	}
+	if why := consistent(m1); why != "" {
+		R.Violate("C13:initialize-succeeds-and-leaves-storage-different", tag+": "+why+"; history: "+strings.Join(hist, "; "), map[string]interface{}{"stream": "initfault", "history": hist})
+	}
+	if n >= at {
+		R.Count("initfault:fault-hit")
+	}
+	R.Count("stream:initfault")
+}
+
 func genCase(r *rng.R) caseJ {
 	malformed := r.Pct(15)
 	c := caseJ{Stream: "valid"}
@@ -1735,6 +1949,8 @@ func main() {
 	n := flag.Int("n", 300, "number of generated cases")
 	out := flag.String("out", ".", "output directory")
 	tier := flag.String("tier", "quick", "")
+	initfaults := flag.Int("initfaults", 0, "number of runs with a storage failure at a write of Initialize's repairs (Go-side verdict: storage == served after a successful Initialize)")
+	apis := flag.Int("apis", 0, "number of runs of the HTTP-layer class (bundle / rule requests through the real router, refused and accepted)")
 	oldrecords := flag.Int("oldrecords", 0, "number of cases in which valid rules are written straight into the storage (another member's records, isolation levels included) before a restart")
 	keytypes := flag.Int("keytypes", 0, "number of cases with pd-server.key-type table / txn (rule keys are memcomparable encodings of 3..17 raw bytes)")
 	handovers := flag.Int("handovers", 6, "number of leadership hand-over cases on a real pd server (RaftCluster Stop/Start, another member's updates in between)")
@@ -1782,6 +1998,19 @@ func main() {
 		if json.Unmarshal(b, &l) == nil && len(l) > 0 {
 			return l
 		}
+		var api struct {
+			Replay struct {
+				Steps []apiStep `json:"steps"`
+			} `json:"replay"`
+			Steps []apiStep `json:"steps"`
+		}
+		if json.Unmarshal(b, &api) == nil && len(api.Replay.Steps)+len(api.Steps) > 0 {
+			runAPI(R, append(api.Replay.Steps, api.Steps...), "replay")
+			for _, v := range R.Violations {
+				fmt.Println(v.Sig, v.Desc)
+			}
+			return nil
+		}
 		var one struct {
 			Replay *caseJ `json:"replay"`
 		}
@@ -1827,6 +2056,12 @@ func main() {
 		}
 		for k := 0; k < *handovers; k++ {
 			emit(genHandover(master.Fork(uint64(6000000+k))), nil)
+		}
+		for k := 0; k < *initfaults; k++ {
+			initFault(R, master.Fork(uint64(9500000+k)), fmt.Sprintf("seed %d initfault run %d", *seed, k))
+		}
+		for k := 0; k < *apis; k++ {
+			apiClass(R, master.Fork(uint64(9000000+k)), fmt.Sprintf("seed %d api run %d", *seed, k))
 		}
 		for k := 0; k < *oldrecords; k++ {
 			emit(genOldRecord(master.Fork(uint64(8000000+k))), nil)
